@@ -39,7 +39,7 @@ def framework_tables(spec):
         row = {
             "code name": x["name"],
             "display name": "X " + x["name"],
-            "components": ",".join(x["inc"]),
+            "components": ",".join(x.get("inc_ref") or x["inc"]),
             "denominator": x.get("den"),
             "databook page": "comps" if x.get("db") else None,
             "default value": None,
@@ -137,8 +137,10 @@ def make_data(spec, F):
         tdve = D.tdve[q]
         first = list(data["q"][q].keys())[0]
         ts_all = tdve.ts[first].copy()
+        own = (data.get("all_rows_own") or {}).get(q, [])
         for k in list(tdve.ts.keys()):
-            del tdve.ts[k]
+            if k not in own:
+                del tdve.ts[k]
         tdve.ts["All"] = ts_all
     for tr in data.get("tr", []):
         tdc = [x for x in D.transfers if x.code_name == tr["name"]][0]
